@@ -38,6 +38,15 @@ def _data_variants(rng, src_shape, n):
         # same values, other memory layouts (Fortran order, transposed view of a C array)
         out.append(("ids_int64_F", np.asfortranarray(ids.reshape(src_shape)), None))
         out.append(("1ch_float32_Tview", np.ascontiguousarray(vals.astype(np.float32).reshape(src_shape).T).T, None))
+    # legitimate non-finite data values: they are data, not "no neighbour" markers
+    special = ids.astype(rng.choice([np.float32, np.float64]))
+    for k in range(n):
+        r = rng.random()
+        if r < 0.15:
+            special[k] = np.inf
+        elif r < 0.3:
+            special[k] = -np.inf
+    out.append((f"1ch_inf_{special.dtype.name}", special.reshape(src_shape), None))
     mask = np.array([rng.random() < 0.3 for _ in range(n)])
     out.append(("masked_float64", np.ma.array(ids.astype(float).reshape(src_shape), mask=mask.reshape(src_shape)), mask))
     return out
